@@ -1,4 +1,4 @@
-import PydraModel.Template.Lemmas6
+import PydraModel.Template.ArgvBridge6
 import PydraModel.Gen.TemplateRegexes
 /-
 C25 — Command-line templates define the task they spell out.
@@ -146,11 +146,11 @@ theorem C25_reject_template_on_input (tbl : FmtTable) (o : Option Str) (r : Role
     (h : argOK a = true) (hm : a.mod = .tmpl t) (hr : r ≠ .output) :
     parseArgBody tbl o (argBody r a) = .error .templateOnInput := by
   rw [parseArgBody_render tbl o r a h]
-  unfold specFields specAttrs
+  unfold specFields specAttrs specDefaultLit
   cases r with
   | output => exact absurd rfl hr
-  | input => simp [hm, beq_dec, bind, Except.bind, Except.map]
-  | modify => simp [hm, beq_dec, bind, Except.bind, Except.map]
+  | input => simp [hm, beq_dec, Except.bind, Except.map]
+  | modify => simp [hm, beq_dec, Except.bind, Except.map]
 
 /-- A template that does not start with an executable word is refused (`ValueError: Found no executable`). -/
 theorem C25_reject_no_executable (tbl : FmtTable) (tokens : List Str)
@@ -160,6 +160,85 @@ theorem C25_reject_no_executable (tbl : FmtTable) (tokens : List Str)
   rcases h with rfl | ⟨w, ws, rfl, hw⟩
   · rfl
   · simp [List.takeWhile, hw]
+
+/-- GENERAL REJECTION (true of the code: the `else: raise ValueError("Found unknown token …")` branch): wherever the
+    loop meets a token that none of the three regexes matches at its start, the template is refused — whatever came
+    before (as long as it was accepted) and whatever follows. -/
+theorem C25_reject_unlexable (tbl : FmtTable) (st st' : PState) (pre post : List Str) (tok : Str)
+    (hpre : steps tbl st pre = .ok st') (hlex : matchArg tok = none ∧ matchOpt tok = none) :
+    steps tbl st (pre ++ tok :: post) = .error .unknownToken := by
+  rw [steps_append, hpre]
+  simp [bind, Except.bind, steps, step, lex, hlex.1, hlex.2]
+
+/-- … and "unlexable" is exactly: no `<…>` match at the start and no `-x…` match at the start. -/
+theorem C25_unlexable_iff (tok : Str) : lex tok = .unknown ↔ matchArg tok = none ∧ matchOpt tok = none := by
+  unfold lex
+  cases h1 : matchArg tok with
+  | some b => simp
+  | none =>
+    cases h2 : matchOpt tok with
+    | none => simp
+    | some p =>
+      obtain ⟨o, rest⟩ := p
+      cases h3 : matchArg rest <;> simp [h3]
+
+/-! ### leniency of the parser (witnesses; all three reproduced on the implementation by the correspondence corpus)
+
+The converse of the rejection theorem is FALSE for the code: `re.match` anchors the regexes at the start of a token only,
+and a pending option is overwritten without complaint, so some strings outside the documented grammar are accepted. -/
+
+/-- Anything may follow the closing `>` of a field: `<a>junk` is read as `<a>` (for every field and every junk). -/
+theorem C25_lenient_trailing_text (r : Role) (a : ArgSpec) (h : argOK a = true) (junk : Str) :
+    lex ('<' :: (argBody r a ++ '>' :: junk)) = .arg (argBody r a) := by
+  unfold lex
+  rw [matchArg_render r a h junk]
+
+/-- An option followed by another option is dropped silently: `cmd -o -p <x>` defines `x` with `-p` only. -/
+theorem C25_lenient_option_overwritten :
+    (parseTemplate [] ["cmd".toList, "-o".toList, "-p".toList, "<x>".toList]).map
+        (fun d => d.fields.map (fun f => (f.name, f.argstr, f.position)))
+      = .ok [("x".toList, some "-p".toList, some 1)] := by decide +kernel
+
+/-- An "option" may carry arbitrary text after its name: the whole token `-o=3` becomes the argstr. -/
+theorem C25_lenient_option_text :
+    (parseTemplate [] ["cmd".toList, "-o=3".toList, "<x>".toList]).map
+        (fun d => d.fields.map (fun f => (f.name, f.argstr))) = .ok [("x".toList, some "-o=3".toList)] := by
+  decide +kernel
+
+/-! ### the argv clause -/
+
+/-- ARGV (partial only in its explicit side conditions; any template length, any value sizes).
+    For a grammatical template that the parser accepts, the definition it produces — handed to the Argv engine's model of
+    `shell.define`'s slot filling, `ShellTask._command_args` and `position_sort` (`Argv.runDef`) — yields, for safe values,
+    the executable followed by the straightforward reading of every token in template order (`tokenArgs`), and no error.
+    Token kinds covered: positional `<x>`, typed, `?`, `+`, `*`, `=default`, `$template`, `out|`, `modify|`, options
+    `-o <x>` of all these, flags `-f<x[=default]>`.  Not covered (`notBoolArg`): a `<…>` token typed `bool`
+    (a positional bool prints an empty word).  Safe values (`SafeTV`): flags get a bool or nothing; other tokens get
+    non-empty, blank- and quote-free, truthy scalars (the falsy ones are D41), lists of them for `+`/`*`, non-empty
+    tuples otherwise; an output's value is the resolved path (C26's subject), an unset optional is `unset`.
+    The D26 hypothesis of C22 is discharged outright: every position is explicit (1..n). -/
+theorem C25_argv (tbl : FmtTable) (exe : List Str) (ts : List GTok) (d : Def) (vs : List Argv.Value)
+    (hg : Grammar exe ts = true) (hd : parseTemplate tbl (renderAll exe ts) = .ok d)
+    (hnb : ∀ t ∈ ts, notBoolArg t = true) (hlen : vs.length = ts.length)
+    (hsafe : ∀ tv ∈ List.zip ts vs, SafeTV tv.1 tv.2) :
+    Argv.runDef d.exe (toArgvFields d) vs []
+      = .ok (d.exe ++ (List.zip ts vs).flatMap (fun tv => tokenArgs tv.1 tv.2)) := by
+  rw [C25_parse_render tbl exe ts hg] at hd
+  unfold fieldsOf at hd
+  obtain ⟨fs, hfs, rfl⟩ := map_ok' hd
+  have hok : ∀ t ∈ ts, tokOK t = true := by
+    simp only [Grammar, Bool.and_eq_true] at hg
+    exact (all_iff _ _).mp hg.1.2
+  have hall := specAll_fieldsOf tbl ts fs hfs hnb
+  obtain ⟨hT, hwords, hl⟩ := toTriples_template ts (fs.filter isArgument) hall vs 1 hlen hok hsafe
+  obtain ⟨hfields, hvals⟩ := toTriples_fields (fs.filter isArgument) vs 1 (by rw [hl]; exact hlen)
+  obtain ⟨hprops, hinc⟩ := toTriples_props (fs.filter isArgument) vs 1 (by decide)
+  have := runDef_shaped exe (toTriples 1 (fs.filter isArgument) vs)
+    (fun t ht => (hprops t ht).1) hinc (fun t ht => (hprops t ht).2.1)
+    (fun t ht => (hT t ht).1) (fun t ht => (hT t ht).2)
+  rw [hfields, hvals, hwords] at this
+  simp only [toArgvFields, number_filter]
+  exact this
 
 /-! ### non-vacuity: a realistic template satisfies the grammar and parses to the expected task -/
 
@@ -185,6 +264,16 @@ example : (parseTemplate exampleTable (renderAll ["cmd".toList] exampleTokens)).
     = .ok [("in_file", some 1, some "", none), ("recursive", some 2, some "-R", none), ("n", some 3, some "--int-arg", none),
            ("xs", some 4, some "", none), ("out", some 5, some "", some "out.png")] := by
   decide +kernel
+
+/-- the argv theorem's hypotheses are met by the example template with concrete values, and its conclusion computes -/
+def exampleValues : List Argv.Value :=
+  [.one (.path "/data/in.txt".toList), .one (.bool true), .one (.int 5), .many [.str "u".toList, .str "v".toList],
+   .one (.path "/job/out.png".toList)]
+
+example : (∀ t ∈ exampleTokens, notBoolArg t = true) ∧ exampleValues.length = exampleTokens.length := by decide
+
+example : (List.zip exampleTokens exampleValues).flatMap (fun tv => tokenArgs tv.1 tv.2)
+    = ["/data/in.txt", "-R", "--int-arg", "5", "u", "v", "/job/out.png"].map String.toList := by decide
 
 example : argOK ⟨"a".toList, none, .tmpl "x.txt".toList⟩ = true := by decide
 example : optOK "--opt".toList = true := by decide
